@@ -4,7 +4,7 @@
 (* setup_models_data, validate, set_args, run) as a state machine.          *)
 (*                                                                          *)
 (*   Parse -> Load(1) .. Load(n) -> Validate -> SetArgs -> Generate ->      *)
-(*   Render -> (Print | Open -> Write -> PrintMsg) -> Exit(status)          *)
+(*   Render -> (Print | Encode -> Open -> Write -> PrintMsg) -> Exit(status) *)
 (*                                                                          *)
 (* A `plan` fixes the run: the -m / -l arguments (each naming one file with *)
 (* a kind), the -o target, and at most one option / generator fault.        *)
@@ -15,7 +15,10 @@
 (* plan = [args: Seq([flag: "m"|"l", model, kind, ids: Seq(sample id)]),    *)
 (*         out: "none" | "absent" | "old" | "unwritable",                   *)
 (*         fault: "none" | "argparse" | "merge" | "fwgen" | "mergearg" |    *)
-(*                "import" | "generator"]                                   *)
+(*                "import" | "generator" | "encode"]                        *)
+(* fault "encode": the rendered text holds a character UTF-8 cannot encode  *)
+(* (a lone surrogate from a JSON \ud800 escape): printing it fails, and it  *)
+(* must be found out BEFORE the -o target is opened (opening truncates).    *)
 (* file kinds: "list" "object" "lookup" (ok) | "missing" "malformed"        *)
 (*   "badlookup" "scalar" (fail while loading) | "nonobject" "nonstrkey"    *)
 (*   (load fine, fail in generate)                                          *)
@@ -92,16 +95,21 @@ Render == /\ pc = "render"
              ELSE pc' = "emit" /\ status' = status /\ rendered' = TRUE
           /\ UNCHANGED <<plan, nxt, loaded, out, printed, gen>>
 PrintCode == /\ pc = "emit" /\ plan.out = "none"
-         /\ printed' = "code" /\ Exit(0)
-         /\ UNCHANGED <<plan, nxt, loaded, out, rendered, gen>>
-Open == /\ pc = "emit" /\ plan.out # "none"
+             /\ IF plan.fault = "encode" THEN Exit(1) /\ printed' = printed       \* the stream encodes the whole text first
+                ELSE printed' = "code" /\ Exit(0)
+             /\ UNCHANGED <<plan, nxt, loaded, out, rendered, gen>>
+\* output.encode("utf-8") before the target is touched
+Encode == /\ pc = "emit" /\ plan.out # "none"
+          /\ IF plan.fault = "encode" THEN Exit(1) ELSE pc' = "open" /\ status' = status
+          /\ UNCHANGED <<plan, nxt, loaded, out, printed, rendered, gen>>
+Open == /\ pc = "open"
         /\ IF plan.out = "unwritable" THEN Exit(1) /\ out' = out
            ELSE out' = "truncated" /\ pc' = "write" /\ status' = status
         /\ UNCHANGED <<plan, nxt, loaded, printed, rendered, gen>>
 Write == /\ pc = "write"
          /\ out' = "new" /\ printed' = "message" /\ Exit(0)
          /\ UNCHANGED <<plan, nxt, loaded, rendered, gen>>
-Next == Parse \/ Load \/ Validate \/ SetArgs \/ Generate \/ Render \/ PrintCode \/ Open \/ Write
+Next == Parse \/ Load \/ Validate \/ SetArgs \/ Generate \/ Render \/ PrintCode \/ Encode \/ Open \/ Write
 
 \* ---------------------------------------------------------------- properties
 Faulty(p) == p.fault # "none" \/ p.out = "unwritable" \/ \E i \in DOMAIN p.args : p.args[i].kind \notin OkKinds
@@ -112,7 +120,7 @@ Complete == (pc = "exit" /\ status = 0) => IF plan.out = "none" THEN printed = "
                                             ELSE out = "new" /\ printed = "message"
 OnlyWriteAfterRender == [][out' # out => rendered]_vars
 \* C16
-Assembled == pc \in {"validate", "setargs", "generate", "render", "emit", "write"} \/ (pc = "exit" /\ status = 0)
+Assembled == pc \in {"validate", "setargs", "generate", "render", "emit", "open", "write"} \/ (pc = "exit" /\ status = 0)
              => \A m \in Models(plan.args) : MatchChunks(loaded[m], Chunks(plan.args, m))
 Terminates == <>(pc = "exit")
 =============================================================================
